@@ -94,6 +94,11 @@ func (*connectHandler) SetTimeout(request *http.Request) (context.Context, conte
 	if err != nil {
 		return nil, nil, errorf(CodeInvalidArgument, "parse timeout: %w", err)
 	}
+	if millis < 0 {
+		// The grammar is digits only: like the gRPC handler, reject a negative
+		// value instead of installing a deadline in the past.
+		return nil, nil, errorf(CodeInvalidArgument, "parse timeout: %q is negative", timeout)
+	}
 	ctx, cancel := context.WithTimeout(
 		request.Context(),
 		time.Duration(millis)*time.Millisecond,
